@@ -404,7 +404,10 @@ class Engine:
 
     def _gen_copy(self, rng, world):
         h = self._pick(rng, world)
-        return {"op": "copy", "new": self._new_id(world), "h": h.id}
+        op = {"op": "copy", "new": self._new_id(world), "h": h.id}
+        if h.kind == "HPoly" and rng.random() < 0.3:
+            op["as"] = "PPoly"      # a projective polygon built from a hyperbolic one (same derived data: edges)
+        return op
 
     def _gen_stack(self, rng, world):
         h = self._pick(rng, world, lambda x: len(x.shape) <= 1)
@@ -702,12 +705,16 @@ class Engine:
 
     def _do_copy(self, world, op, vs):
         h = world.handles[op["h"]]
+        kind = h.kind
+        if op.get("as") == "PPoly" and h.kind == "HPoly":
+            kind = "PPoly"
+            world.stats["probe.projective_polygon_from_hyperbolic"] += 1
         try:
-            real = self.classes[h.kind](h.real)
+            real = self.classes[kind](h.real)
         except Exception as e:
             self._fail(vs, "copy.raised", "copy-constructing %s raised %r" % (h.kind, e))
             return "raised:" + type(e).__name__
-        nh = self._register(world, op["new"], real, h.kind, h.n, h.data.copy(), h.reach, h.id, h.family, h.cplx)
+        nh = self._register(world, op["new"], real, kind, h.n, h.data.copy(), h.reach, h.id, h.family, h.cplx)
         nh.isint = h.isint
         return "ok"
 
